@@ -358,6 +358,8 @@ class Builder:
                 e["is_scalar"] = False
                 if c["lsb"]:
                     e["lower_index"] = c["lsb"]
+                if c.get("upto_rate") and r.random() < c["upto_rate"]:
+                    e["is_downto"] = False     # an ascending range [lo:hi]; wires[0] is bit lo either way
             i = self.emit(e)
             wires.extend("e%d.%d" % (i, k + 1) for k in range(wdt))
         if not wires:
